@@ -14,6 +14,16 @@ the Rust code uses), the theorems are about `α := Rat`, and the finiteness theo
 `α := XQ` (`Option Rat`, `none` = non-finite, `x / 0 = none`).
 `exp`, `powf`, `sqrt`, `π` (and `log10`) are explicit PARAMETERS (`Fns`), never defined here.
 
+Inputs outside the property's precondition take these paths (mirrored by the model, exercised by the
+`degenerate` stream of the generator, spec verdict `na` or the zero-variance clause):
+* a class with one score / all-equal scores: σ = 0, bandwidth 0, `(x-xi)/0`, constant 0 ⇒ every bin NaN;
+* an empty class (only decoys / only targets, n = 1): `mean` = 0/0 ⇒ bandwidth NaN, π = 1 or 0 ⇒ NaN;
+* all scores equal: additionally `score_step = 0`, `(score-min)/0` = NaN, `NaN as usize = 0`;
+* a NaN score is skipped by `f64::min/max` but poisons its class's σ; a ±∞ score makes the step ∞/NaN;
+* `bins = 1`: `score_step = range/0`; `bins = 0`: the code panics (`bins - 1`, `last().unwrap()`) = `none`;
+* queries outside `[min,max]`: bin clamped to the first/last, weight clamped to `[0,1]` ⇒ the end grid
+  value; a NaN query gives NaN. There is no padding of the score range: the grid is `linspace(min,max)`.
+
 What the model does not mirror: the rayon reduction order inside `Kde::pdf` (the model sums
 sequentially, left to right) and `par_iter().filter().collect()` (order-preserving by rayon's
 contract; the model uses `List.filter`).
@@ -176,6 +186,13 @@ def build (F : Fns α) (scores : List α) (decoys : List Bool) (nbins : Nat) (ad
       | none => none
     else some { bins := raw, minScore := minS, scoreStep := step }
   | _, _ => none
+
+/-- `Builder::default()`: `monotonic: true`, `bins: 1000`, `bw_adjust: identity` (factor 1) — what
+    `score_psms` (PEP of the discriminant score) and `fdr::Competition::fit_kde` use -/
+def defaultBins : Nat := 1000
+
+def buildDefault (F : Fns α) (scores : List α) (decoys : List Bool) : Option (Estimator α) :=
+  build F scores decoys defaultBins (ofNat 1) true
 
 /-- `bin_lo` of `posterior_error` -/
 def binLo (e : Estimator α) (score : α) : Nat :=
